@@ -36,7 +36,7 @@ META = dict(
     design_ref="4/C16, 5")
 
 MAXDEN = 20000
-KEYS = ["total", "total_winning_trades", "total_losing_trades", "win_rate", "net_profit", "gross_profit", "gross_loss",
+KEYS = ["starting_balance", "total", "total_winning_trades", "total_losing_trades", "win_rate", "net_profit", "gross_profit", "gross_loss",
         "net_profit_percentage", "longs_count", "shorts_count", "longs_percentage", "shorts_percentage", "fee",
         "largest_winning_trade", "largest_losing_trade", "average_win", "average_loss", "expectancy", "winning_streak",
         "losing_streak", "current_streak", "max_drawdown", "omega_ratio", "sharpe_ratio", "sortino_ratio", "annual_return",
@@ -93,7 +93,8 @@ def metrics_batch(item):
     from jesse.store import store
     fee = 0.0 if not item["fee_den"] else 1.0 / item["fee_den"]
     U = item["U"]
-    s = ObjSession(typ='futures', fee=fee, balance=1000.0)
+    bal = Fraction(item.get("bal", "1000"))
+    s = ObjSession(typ='futures', fee=fee, balance=float(bal))
     store.app.starting_time = T0
     s.exchange.assets[s.exchange.settlement_currency] = 1234.0      # the current balance differs from the starting balance
     out = []
@@ -132,12 +133,18 @@ def metrics_batch(item):
         if me["exc"] != "none":
             me["m"] = {}
         ev.append(me)
-        out.append({"hdr": {"U": U, "start": 1000, "short": bool(sp["short"]), "src": sp.get("src", "")}, "ev": ev})
+        out.append({"hdr": {"U": U, "sn": bal.numerator, "sd": bal.denominator, "short": bool(sp["short"]), "src": sp.get("src", "")}, "ev": ev})
     return out
 
 
-def chunked(specs, fee_den, U, size):
-    return [{"fee_den": fee_den, "U": U, "specs": specs[i:i + size]} for i in range(0, len(specs), size)]
+# starting balances that are not multiples of 0.01 (3-7 decimals, a tiny coin-quoted one); all exact in binary and with
+# small denominators so that net profit / starting balance stays inside the rational lattice
+BALANCES = ["1000", "1000.125", "0.1234375", "2345.625", "7.03125", "0.375"]
+
+
+def chunked(specs, fee_den, U, size, balances=("1000",)):
+    return [{"fee_den": fee_den, "U": U, "specs": specs[i:i + size], "bal": balances[(i // size) % len(balances)]}
+            for i in range(0, len(specs), size)]
 
 
 def cum_daily(trades, start=1000):
@@ -185,7 +192,8 @@ def equity_run(item):
     from .. import session as S
     typ, syms, n, seed = item["typ"], item["syms"], item["n"], item["seed"]
     fee = 0.0 if not item["fee_den"] else 1.0 / item["fee_den"]
-    cfg = S.spot_config(fee=fee) if typ == 'spot' else S.futures_config(fee=fee, lev=item.get("lev", 2))
+    bal = Fraction(item.get("bal", "10000"))
+    cfg = S.spot_config(fee=fee, balance=float(bal)) if typ == 'spot' else S.futures_config(fee=fee, lev=item.get("lev", 2), balance=float(bal))
     candles = {s: S.lattice_walk(n, seed * 7 + (13 if s.startswith('ETH') else 0), start=100 + (20 if s.startswith('ETH') else 0),
                                  floor=40) for s in syms}
     pol = dict(item["policy"], spot=(typ == 'spot'), seed=seed)
@@ -228,7 +236,7 @@ def equity_run(item):
         ev.append({"k": "daily", "value": sc(e['value'], flags), "wallet": wallet, "pos": pl, "active": al, "exact": flags[0],
                    "t": int(e['t']), "len": int(e['n']), "series": []})
         ev[-1]["exact"] = flags[0]
-    res = {"hdr": {"type": typ, "start": 10000 * 1024, "n": n, "syms": list(syms), "seed": seed, "tf": item.get("tf", "1m"),
+    res = {"hdr": {"type": typ, "start": int(bal * 1024), "n": n, "syms": list(syms), "seed": seed, "tf": item.get("tf", "1m"),
                    "fast": bool(item.get("fast"))}, "ev": ev, "exc": out["exc"],
            "ntrades": 0, "reads": reads}
     fin = out.get("final") or {}
@@ -241,11 +249,11 @@ def equity_run(item):
         ev.append({"k": "final", "value": 0, "wallet": wallet, "pos": pl, "active": al, "exact": flags[0], "t": 0, "len": len(fin["daily"]),
                    "series": [sc(x, [True]) for x in fin["daily"]]})
         res["ntrades"] = len(fin.get("trades", []))
-        res["mtrace"] = report_trace(fin.get("trades", []), (out.get("result") or {}).get("metrics"))
+        res["mtrace"] = report_trace(fin.get("trades", []), (out.get("result") or {}).get("metrics"), bal)
     return res
 
 
-def report_trace(trades, m):
+def report_trace(trades, m, bal):
     """result['metrics'] of the run against the closed trades captured from the store (trade metrics only; exact runs only)"""
     if m is None:
         return None
@@ -257,7 +265,7 @@ def report_trace(trades, m):
             return None                      # an average entry in thirds: not on the lattice
         tot += abs(int(fp))
         ev.append({"k": "trade", "pnl": int(fp), "typ": str(t["type"]), "fee": int(ff)})
-    if tot * 100 >= 2 * 10 ** 9:
+    if tot * 100 * bal.denominator >= 2 * 10 ** 9:
         return None
     me = {"k": "metrics", "exc": "none", "m": {}, "argsame": True}
     keys = KEYS if trades else ["total", "win_rate", "net_profit_percentage"]
@@ -271,7 +279,7 @@ def report_trace(trades, m):
         me["m"]["sharpe2"] = enc(float("nan"))
         me["m"]["sortino2"] = enc(float("nan"))
     ev.append(me)
-    return {"hdr": {"U": U, "start": 10000, "short": False, "src": "in-vivo"}, "ev": ev}
+    return {"hdr": {"U": U, "sn": bal.numerator, "sd": bal.denominator, "short": False, "src": "in-vivo"}, "ev": ev}
 
 
 POLICIES = [
@@ -307,6 +315,7 @@ def equity_items(ctx, rng):
             n = max(5, n - n % 5)
         items.append({"typ": typ, "syms": list(routes), "n": n, "seed": ctx.seed * 1000 + k, "fee_den": rng.choice([0, 64, 1024]),
                       "policy": POLICIES[k % len(POLICIES)], "lev": rng.choice([1, 2, 4]), "tf": tf, "fast": (k // 3) % 3 == 2,
+                      "bal": ["10000", "1250.125", "2345.625", "5000.0625"][(k // 2) % 4],
                       "reads": k % 4 != 0})
         k += 1
     return items
@@ -406,7 +415,8 @@ def run(ctx):
     # ---------------- R: real metrics.trades in forked children
     for j, sp in enumerate(specs0 + specs_fee + specs_long + specs_bal):
         sp["final"] = (j % 3 != 1)
-    jobs = chunked(specs0, 0, 1, 400) + chunked(specs_fee, 1024, 1024, 400) + chunked(specs_long, 0, 1, 6) + chunked(specs_bal, 0, 1, 200)
+    jobs = chunked(specs0, 0, 1, 200, BALANCES) + chunked(specs_fee, 1024, 1024, 400) + chunked(specs_long, 0, 1, 6) \
+        + chunked(specs_bal, 0, 1, 100, BALANCES)
     res = run_isolated(metrics_batch, jobs, procs=16)
     traces = []
     for job, out in zip(jobs, res):
@@ -414,7 +424,7 @@ def run(ctx):
             raise Machinery("metrics driver failed: %s" % out[1])
         for sp, t in zip(job["specs"], out):
             t["id"] = len(traces) + 1
-            t["_spec"] = {"fee_den": job["fee_den"], "U": job["U"], "spec": sp}
+            t["_spec"] = {"fee_den": job["fee_den"], "U": job["U"], "spec": sp, "bal": job["bal"]}
             traces.append(t)
     payload = {t["id"]: t.pop("_spec") for t in traces}
     # ---------------- T: in-vivo runs (executed here so that their reports are judged together with the synthetic calls)
@@ -522,7 +532,7 @@ def replay(ctx, rp):
             for verdict in v[1][1]:
                 ctx.violation(sig_metrics(verdict), "replay: %s" % verdict, p)
         return
-    out = metrics_batch({"fee_den": p["fee_den"], "U": p["U"], "specs": [p["spec"]]})
+    out = metrics_batch({"fee_den": p["fee_den"], "U": p["U"], "specs": [p["spec"]], "bal": p.get("bal", "1000")})
     t = out[0]
     t["id"] = 1
     v, _ = tlc.validate_traces("TraceMetrics", "TraceMetrics.cfg", [t], ctx.scratch, parts=1)
